@@ -11,8 +11,8 @@ import (
 
 func init() {
 	register(&Property{
-		ID:  "C19",
-		Run: runC19,
+		ID:      "C19",
+		Run:     runC19,
 		Explain: "(1) signature before acceptance: ProcessPACInfoBuffers returns nil only through verify's ok edge; verify returns true only after KerbValidationInfo, ServerChecksum, KDCChecksum and ClientInfo are present and VerifyChecksum(service key value, ZeroSigData, ServerChecksum.Signature, usage 17) is true on the etype GetChksumEtype selects for the declared signature type; Ticket.GetPACType looks the key up with the same (sname|override, realm, kvno, etype) as the ticket's own decryption and returns the processing error, which VerifyAPREQ rejects on (C01); (2) zeroing: ZeroSigData starts as a copy of the PAC and both the server- and the KDC-signature case overwrite exactly [Offset, Offset+Size) with the SignatureData copy whose bytes [4, 4+c) are zero (sibling agreement); (3) the signature-size table of SignatureData.Unmarshal gives, for every checksum type it lists, GetHMACBitLength()/8 of the etype GetChksumEtype maps that type to (cross-table check against the crypto reference table); (4) faithful reporting: at both sites that build ADCredentials every field is taken from the same-named member of the verified PAC's KerbValidationInfo, only on the path where PAC processing succeeded.",
 		NotDecided: []string{
 			"bit-level sensitivity of the HMAC (cryptographic); NDR decoding of the buffers (dependency)",
